@@ -133,6 +133,47 @@ INFO = {
     "C18-m6": ("C18", "bufio Peek error cleared when more than 188 bytes were obtained", "bufio.Reader + auto-detection, underlying reader failing once at offset 189..192"),
     "C20-m5": ("C20", "packet buffer latches 'truncated' and Rewind keeps the buffer when the size is explicit", "explicit packet size, input ending in the middle of a packet, Rewind after the end was reached"),
     "C20-m6": ("C20", "PAT programme 0 (network PID) enters the programme map, which Rewind never resets", "PAT with a programme-0 entry naming a PID of its own, a section on that PID before the PAT, Rewind after the PAT was parsed"),
+    # round 6 (all twenty properties; the brief asked for state surviving between calls, objects the caller reuses, degenerate inputs, option order)
+    "C01-m7": ("C17", "retransmit counter reset before WriteTables is attempted inside WriteData (asked for C01: no PES or table is lost or altered, only fewer emissions - C17's subject; same slip as C17-m3)", "a WriteData rejected for an invalid PCR PID while tables were due, then a successful one: no tables in front of it"),
+    "C01-m8": ("C01", "continuity counter incremented for the payload-less packet carrying an oversized adaptation field", "adaptation field leaving no room for the PES header, with an earlier PES pending on the PID: the demuxer sees a gap and drops it"),
+    "C02-m7": ("C08", "packet size auto-detection takes the LAST sync byte of the window (asked for C02; needs auto-detection, the subject of C08)", "0x47 among bytes 1..4 of the second packet (PID 0x..47, PID 0x07xx with PUSI, adaptation_field_length 0x47)"),
+    "C02-m8": ("C02", "end-of-stream flush returns ErrNoMorePackets after the first dumped PID that yields no data", "a PID yielding nothing (CAT, TDT, private data) numerically below a PID whose last unit is pending"),
+    "C03-m7": ("C03", "end-of-stream drain: break instead of continue on a parse error (end not final)", ">= 2 PIDs pending at the end, the lower one failing to parse, and calls after ErrNoMorePackets"),
+    "C03-m8": ("C03", "peek uses Read instead of ReadFull for non-bufio readers", "auto-detection on a reader whose first Read returns fewer than 188 bytes"),
+    "C04-m7": ("C04", "StuffingLength reset at the end of WriteData guarded by writeAf (never true there)", "the same adaptation field struct handed to successive calls, a tiny unit then one with a bigger PES header"),
+    "C04-m8": ("C04", "written += len(p.Payload) moved out of the HasPayload block", "WritePacket with HasPayload=false, a short adaptation field and bytes left in Payload: 188 reported, fewer written"),
+    "C05-m7": ("C05", "esContexts keyed by PID & 0x0fff", "two streams whose PIDs differ only by bit 12"),
+    "C05-m8": ("C05", "esContext cached in the caller's MuxerData and never invalidated", "a MuxerData kept across Remove + Add of its PID (or handed to two Muxers) next to a fresh one"),
+    "C06-m7": ("C06", "duplicate check against the last payload packet of ANY PID", "a duplicate separated from its original by a packet of another PID"),
+    "C06-m8": ("C06", "accumulator cache indexed by PID & 63 without checking the PID", "two PIDs equal modulo 64: a loss on one resets the other's queue"),
+    "C07-m7": ("C07", "duplicate check against the previous packet of the stream instead of the PID", "a duplicate inside a multi-packet unit with another PID's (or a null) packet in between"),
+    "C07-m8": ("C07", "recycled queue storage stays on offer after a failed NextData", "a unit of X that fails to parse, then a unit start on Y: X and Y share a backing array"),
+    "C08-m7": ("C08", "relative seek back over 193 bytes after auto-detection on a seekable reader", "seekable reader, auto-detection, input of 189..192 bytes"),
+    "C08-m8": ("C08", "hand-written read loop checks io.EOF before the packet is complete", "a reader that returns the final bytes together with io.EOF"),
+    "C09-m7": ("C09", "calcDescriptorLength trusts a non-zero Descriptor.Length", "a descriptor whose redundant Length is stale (edited after parsing)"),
+    "C09-m8": ("C16", "ISO 639 descriptor Language parsed without copy (asked for C09: the table is right when delivered and changes later - C16's subject; same slip as C14-m6)", "a PMT with a language descriptor kept while NextData is called again"),
+    "C10-m7": ("C10", "running CRC hoisted into writePSIData and not re-initialised between sections", "a PSIData of >= 2 sections written in one call"),
+    "C10-m8": ("C10", "writePSISection emits a non-zero PSISection.CRC32 as it is", "a parsed section edited and written again (stale CRC32 field)"),
+    "C11-m7": ("C11", "private data length byte only written when the length is > 0", "transport_private_data_flag set with zero bytes of data"),
+    "C11-m8": ("C07", "packet buffer's reused iterator not rewound on the error path (asked for C11: conformant packets in isolation are unaffected; a damaged packet on one PID makes every later packet fail - C07's subject)", "NextPacket called again after a packet was rejected"),
+    "C12-m7": ("C12", "PES detection looks at the first TS packet only", "first packet's adaptation field leaving 0..2 payload bytes: the start code straddles two packets"),
+    "C12-m8": ("C12", "extension-2 size taken from Extension2Length instead of len(Extension2Data)", "a header whose redundant Extension2Length disagrees with the data handed in (zero, or stale)"),
+    "C13-m7": ("C13", "calcDescriptorsLength adds in uint8", "a descriptor of 254 or 255 content bytes: loop lengths 256 too small"),
+    "C13-m8": ("C02", "isPSIComplete: Len() > Offset() (asked for C13: the tables that are delivered decode correctly; a unit filling its packets exactly is delivered late or dropped - C02's subject; close to C01-m4)", "PAT/PMT unit of exactly 184k or 184k-1 bytes"),
+    "C14-m7": ("C14", "user-defined tag test written tag & 0x80 != 0", "tag 0xff with a non-empty body"),
+    "C14-m8": ("C14", "VBI reserved service ids skip one byte instead of data_service_descriptor_length", "a reserved VBI service with 0 or >= 2 reserved bytes followed by another service"),
+    "C15-m7": ("C15", "writeDVBTime memo keyed by a 16-bit date with a 7-bit year", "a date encoded right after the same day 128 years away"),
+    "C15-m8": ("C15", "parseDVBTime memo whose key is updated before the step that can fail", "a complete field decoded right after a truncated field of the same day"),
+    "C16-m7": ("C16", "bytesPooler.get returns early for size 0, keeping the previous content", "a packet flagged with payload whose adaptation field fills it (zero-byte unit) after another payload used the pooled buffer"),
+    "C16-m8": ("C16", "parseDVBTime memoises in an unsynchronised package-level struct", ">= 2 demuxers decoding DVB times concurrently"),
+    "C17-m7": ("C18", "WriteTables ignores the error of the PMT write (asked for C17; needs a failing writer, the subject of C18)", "the writer refusing exactly the second write of a table emission"),
+    "C17-m8": ("C17", "a rejected AddElementaryStream still marks the PMT updated", "emission, Add rejected as duplicate, emission: version moves although nothing changed"),
+    "C18-m7": ("C18", "error of the adaptation-only packet write dropped in WriteData", "oversized adaptation field and a writer failing once during that packet"),
+    "C18-m8": ("C18", "0xff padding written through a batch whose error is never read", "WritePacket with a short payload and a writer failing on a padding byte"),
+    "C19-m7": ("C19", "one Packet struct recycled across skipped packets, AdaptationField never reset", "a skipped packet with an adaptation field followed by a packet without one"),
+    "C19-m8": ("C19", "data buffer aliases the parser's slice and slots are nil-ed as they are popped", "a skip=true parser answering several units with one and the same slice of >= 2 items"),
+    "C20-m7": ("C20", "detected packet size written back into the option, so detection is skipped after Rewind", "auto-detection, a corrupted first sync byte, >= 2 calls before the Rewind"),
+    "C20-m8": ("C20", "reader errors latched in the Demuxer and not cleared by Rewind", "a seekable reader failing once before the Rewind"),
 }
 REVERTS = {
     "R01": "C12", "R02": "C14", "R03": "C14", "R04": "C18", "R05": "C17", "R06": "C04", "R07": "C11", "R08": "C05", "R09": "C06",
